@@ -161,19 +161,19 @@ impl<'a> Reply<'a> {
             .collect();
 
         quote! {
-            pub trait SubMsgMethods<CustomMsgT> {
+            pub trait SubMsgMethods<SvCustomMsgT> {
                 #(#methods_declaration)*
             }
 
-            impl<CustomMsgT> SubMsgMethods<CustomMsgT> for #sylvia ::cw_std::SubMsg<CustomMsgT> {
+            impl<SvCustomMsgT> SubMsgMethods<SvCustomMsgT> for #sylvia ::cw_std::SubMsg<SvCustomMsgT> {
                 #(#submsg_reply_setters)*
             }
 
-            impl<CustomMsgT> SubMsgMethods<CustomMsgT> for #sylvia ::cw_std::WasmMsg {
+            impl<SvCustomMsgT> SubMsgMethods<SvCustomMsgT> for #sylvia ::cw_std::WasmMsg {
                 #(#submsg_converters)*
             }
 
-            impl<CustomMsgT> SubMsgMethods<CustomMsgT> for #sylvia ::cw_std::CosmosMsg<CustomMsgT> {
+            impl<SvCustomMsgT> SubMsgMethods<SvCustomMsgT> for #sylvia ::cw_std::CosmosMsg<SvCustomMsgT> {
                 #(#submsg_converters)*
             }
         }
@@ -375,7 +375,7 @@ impl<'a> ReplyData<'a> {
         let payload_serialization = payload.emit_payload_serialization();
 
         quote! {
-            fn #method_name (self, #(#payload_parameters),* ) -> #sylvia ::cw_std::StdResult< #sylvia ::cw_std::SubMsg<CustomMsgT>> {
+            fn #method_name (self, #(#payload_parameters),* ) -> #sylvia ::cw_std::StdResult< #sylvia ::cw_std::SubMsg<SvCustomMsgT>> {
                 #payload_serialization
 
                 Ok( #sylvia ::cw_std::SubMsg {
@@ -404,7 +404,7 @@ impl<'a> ReplyData<'a> {
         let payload_serialization = payload.emit_payload_serialization();
 
         quote! {
-            fn #method_name (self, #(#payload_parameters),* ) -> #sylvia ::cw_std::StdResult< #sylvia ::cw_std::SubMsg<CustomMsgT>> {
+            fn #method_name (self, #(#payload_parameters),* ) -> #sylvia ::cw_std::StdResult< #sylvia ::cw_std::SubMsg<SvCustomMsgT>> {
                 #payload_serialization
 
                 Ok( #sylvia ::cw_std::SubMsg {
@@ -424,7 +424,7 @@ impl<'a> ReplyData<'a> {
         let payload_parameters = self.payload.iter().map(|field| field.emit_method_field());
 
         quote! {
-            fn #method_name (self, #(#payload_parameters),* ) -> #sylvia ::cw_std::StdResult< #sylvia ::cw_std::SubMsg<CustomMsgT>>;
+            fn #method_name (self, #(#payload_parameters),* ) -> #sylvia ::cw_std::StdResult< #sylvia ::cw_std::SubMsg<SvCustomMsgT>>;
         }
     }
 
